@@ -26,6 +26,9 @@ type chain struct {
 	keys     []stateKey
 	keyset   map[string]bool
 
+	// evAddr: an address that emitted at least one event on this chain (filtered event queries)
+	evAddr *felt.Felt
+
 	// answers of the unpruned twin never change once the chain is generated: cache them
 	cacheMu   sync.Mutex
 	twinState map[string]twinStateRes
@@ -145,7 +148,49 @@ func (c *chain) next(plain bool) (*lib.Bundle, error) {
 	for a := range diff.DeployedContracts {
 		c.addKey(stateKey{Kind: "class", Addr: a})
 	}
-	return g.Next(&lib.BlockSpec{Version: version, Diff: diff, Classes: classes})
+	b, err := g.Next(&lib.BlockSpec{Version: version, Diff: diff, Classes: classes})
+	if err == nil && c.evAddr == nil {
+		for _, rc := range b.Block.Receipts {
+			if len(rc.Events) > 0 {
+				a := *rc.Events[0].From
+				c.evAddr = &a
+				break
+			}
+		}
+	}
+	return b, err
+}
+
+// nextBare manufactures an empty block (no state diff, no transactions) — or, with events=true, a block
+// whose only content is one or two transactions with at least one event. Long chains of such blocks are
+// cheap on both state backends (nothing is written to the state or its history).
+func (c *chain) nextBare(events bool) (*lib.Bundle, error) {
+	g := c.g
+	version := g.Opt.Versions[0]
+	diff := &core.StateDiff{
+		StorageDiffs: map[felt.Felt]map[felt.Felt]*felt.Felt{}, Nonces: map[felt.Felt]*felt.Felt{},
+		DeployedContracts: map[felt.Felt]*felt.Felt{}, DeclaredV0Classes: []*felt.Felt{},
+		DeclaredV1Classes: map[felt.Felt]*felt.Felt{}, ReplacedClasses: map[felt.Felt]*felt.Felt{},
+		MigratedClasses: map[felt.SierraClassHash]felt.CasmClassHash{},
+	}
+	spec := &lib.BlockSpec{Version: version, Diff: diff, Classes: map[felt.Felt]core.ClassDefinition{}, NoTxs: true}
+	if events {
+		spec.NoTxs = false
+		for len(spec.Txs) == 0 {
+			tx := g.GenTx(version)
+			rc := g.GenReceipt(tx)
+			if len(rc.Events) == 0 {
+				continue
+			}
+			if c.evAddr == nil {
+				a := *rc.Events[0].From
+				c.evAddr = &a
+			}
+			spec.Txs = append(spec.Txs, tx)
+			spec.Rcs = append(spec.Rcs, rc)
+		}
+	}
+	return g.Next(spec)
 }
 
 // opRec is one step of a scenario as it goes into a replay file.
@@ -187,7 +232,9 @@ type world struct {
 	situation string // steady | mid-prune | after-cancel | after-failed-write | after-crash-mid-prune | after-restart
 	quiescent bool
 	isFork    bool
-	lastLow   uint64 // lowest durable floor seen at the previous observation (observation window)
+	noState   bool            // long bare chains: no historical state observations (covered by the other scenarios)
+	extra     map[uint64]bool // blocks always inside the observation window
+	lastLow   uint64          // lowest durable floor seen at the previous observation (observation window)
 	// dirtyUpTo: blocks below it may have been half-pruned by a prune that was interrupted by a crash or a
 	// write error (its target was at most the allowed floor of that moment); only a prune that completes at or
 	// above it sweeps them. 0 = nothing pending.
@@ -625,7 +672,8 @@ func (w *world) event(kind string, n, ts uint64, plan prunePlan) eventResult {
 func (w *world) fork(kind string, n, ts uint64, seq int) {
 	f := &world{res: w.res, ch: w.ch, name: w.name, spec: w.spec, drv: w.fdrv, fixed: w.fixed, pcfg: w.pcfg,
 		height: w.height, l1: w.l1, fspec: w.fspec, cutoff: w.cutoff, isFork: true,
-		situation: "after-crash-mid-prune", quiescent: true, dirtyUpTo: max(w.dirtyUpTo, w.fspec), lastLow: w.lastLow}
+		situation: "after-crash-mid-prune", quiescent: true, dirtyUpTo: max(w.dirtyUpTo, w.fspec), lastLow: w.lastLow,
+		noState: w.noState, extra: w.extra}
 	f.ops = append(append([]opRec{}, w.ops...), opRec{Op: "crash-image", N: uint64(seq), Note: "kill -9 right after this batch write of the prune above; continue on the image"})
 	f.nodeDB = w.nodeDB.Copy()
 	f.shadowDB = w.shadowDB.Copy()
@@ -702,10 +750,13 @@ func (w *world) observe() {
 		oldestNow = 0
 	}
 	lowMark := min(w.lastLow, oldestNow, w.fspec)
+	if w.noState {
+		lowMark = min(oldestNow, w.fspec) // long bare chains: only around the floors, not the whole pruned prefix
+	}
 	highMark := max(oldestNow, w.fspec)
 	w.lastLow = oldestNow
 	inWindow := func(n int) bool {
-		if w.height < 18 || n == 0 || n >= w.height-1 {
+		if w.height < 18 || n == 0 || n >= w.height-1 || w.extra[uint64(n)] {
 			return true
 		}
 		return uint64(n)+3 >= lowMark && uint64(n) <= highMark+2
@@ -720,6 +771,7 @@ func (w *world) observe() {
 		}
 		c := ctxOf(b, uint64(n))
 		c.Head = uint64(w.height)
+		c.EvAddr = w.ch.evAddr
 		for _, rq := range readerQueries() {
 			// the calls close over the Blockchain they are built for: build them per side
 			nodeCalls := rq.Run(w.node, w.nodeDB, c)
@@ -729,6 +781,9 @@ func (w *world) observe() {
 				class, det := runPair(nc, w.ch.twinQuery(fmt.Sprintf("%s/%d/%v/%s", rq.Name, n, c.OnChain, tc.Arg), tc))
 				items = append(items, obsItem{model: rq.Model, real: rq.Name, n: uint64(n), arg: nc.Arg, class: class, det: det})
 			}
+		}
+		if w.noState {
+			continue
 		}
 		nn := uint64(n)
 		byNum := func(bc *blockchain.Blockchain) (core.StateReader, blockchain.StateCloser, error) {
@@ -745,7 +800,9 @@ func (w *world) observe() {
 	// head state: the pruner never touches it. Compared with the shadow: a never-pruned node that went
 	// through the same Store / RevertHead history (so a defect of RevertHead itself is not blamed on pruning).
 	headClass, headDet := "notfound", ""
-	if w.height >= 0 {
+	if w.noState {
+		headClass = "skipped"
+	} else if w.height >= 0 {
 		headOf := func(bc *blockchain.Blockchain) (core.StateReader, blockchain.StateCloser, error) {
 			return bc.HeadState()
 		}
@@ -797,9 +854,12 @@ func (w *world) observe() {
 				"situation": w.situation, "height": w.height, "detail": it.det}, m, impl)
 		}
 	}
-	if outs[len(items)] != headClass {
+	if !w.noState && outs[len(items)] != headClass {
 		w.mismatch("answer-headState", map[string]any{"height": w.height, "detail": headDet}, outs[len(items)], headClass)
 	}
+
+	// --- persisted aggregated bloom windows: which exist on disk, model vs implementation vs property
+	w.bloomWindows()
 
 	// --- property oracle on the real answers
 	w.oracle(items, headClass, headDet)
@@ -809,7 +869,7 @@ func (w *world) observe() {
 
 func (w *world) oracle(items []obsItem, headClass, headDet string) {
 	sit := w.situation
-	if headClass != "ok" && w.height >= 0 {
+	if headClass != "ok" && headClass != "skipped" && w.height >= 0 {
 		w.violate("head-state-"+classWord(headClass)+"-"+sit, fmt.Sprintf("head state (block %d) answers %s %s", w.height, headClass, headDet))
 	}
 	// the floor the node itself reports (BlockPrunedError.OldestRetained)
@@ -884,6 +944,45 @@ func (w *world) oracle(items []obsItem, headClass, headDet string) {
 			if it.model == "requireRetained" && it.n < oldest && it.class != "pruned" {
 				w.violate("below-floor-not-reported-pruned-"+sit, where)
 			}
+		}
+	}
+}
+
+// bloomWindows compares the persisted aggregated bloom filters with the model and checks that every
+// complete window that still indexes a retained block is on disk (the cache fallback of event queries and
+// RunningEventFilter.onReorg read it from there).
+func (w *world) bloomWindows() {
+	if w.height < 0 {
+		return
+	}
+	const W = core.NumBlocksPerFilter
+	oldest, oerr := pruner.OldestRetainedBlock(w.nodeDB)
+	for win := uint64(0); win <= uint64(w.height)/W+1; win++ {
+		_, err := core.GetAggregatedBloomFilter(w.nodeDB, win*W, win*W+W-1)
+		impl := "0"
+		if err == nil {
+			impl = "1"
+		}
+		m, derr := w.drv.Ask(fmt.Sprintf("agg %d", win))
+		if derr != nil {
+			w.res.Note("driver: %v", derr)
+			w.broken = true
+			return
+		}
+		w.res.Compared(1)
+		if m != impl {
+			w.mismatch("bloom-window-persisted", map[string]any{"window": win, "height": w.height, "situation": w.situation}, m, impl)
+		}
+		complete := (win+1)*W <= uint64(w.height)+1
+		if !complete || impl == "1" {
+			continue
+		}
+		what := fmt.Sprintf("the persisted aggregated bloom filter of window %d (blocks %d..%d) is gone although the window is complete and indexes retained blocks [head %d, oldest retained %d, allowed floor %d]",
+			win, win*W, win*W+W-1, w.height, oldest, w.fspec)
+		if (win+1)*W > w.fspec {
+			w.violate("retained-bloom-window-missing-"+w.situation, what)
+		} else if w.quiescent && oerr == nil && (win+1)*W > oldest {
+			w.violate("reported-floor-bloom-window-missing-"+w.situation, what)
 		}
 	}
 }
